@@ -23,7 +23,25 @@ for line in p.stdout.splitlines():
 passed -= failed
 base = set(json.load(open("/root/.vp/BASELINE.json"))["stable_pass"])
 missing = sorted(base - passed)
+# a stable test that did not pass in the full run is re-run alone (up to 3 times): load-sensitive stress tests
+# (pkg/eventbus) fail when 16 cores are shared with other work; only a test that also fails alone is missing
+retried = []
+for m in list(missing):
+    pkg, _, name = m.partition("::")
+    if name.startswith("["):
+        continue
+    rel = "./" + pkg.split("github.com/thushan/olla/", 1)[-1] if "github.com/thushan/olla/" in pkg else pkg
+    top = name.split("/")[0]
+    for attempt in range(3):
+        r = subprocess.run(["go", "test", "-vet=off", "-count=1", "-run", "^" + top + "$", rel], cwd=repo, env=env, capture_output=True, text=True)
+        if r.returncode == 0:
+            missing.remove(m)
+            passed.add(m)
+            retried.append(m)
+            break
 print("passed=%d failed=%d baseline=%d missing_from_baseline=%d" % (len(passed), len(failed), len(base), len(missing)))
+for m in retried:
+    print("  PASSED-ALONE", m)
 for m in missing[:40]:
     print("  MISSING", m)
 for f in sorted(failed)[:40]:
